@@ -1150,11 +1150,11 @@ func cacheUnlockWindowRules(c *Ctx, ci *cacheInfo, prop string) {
 		})
 		var relocks []ssa.Instruction
 		for _, op := range li.Ops {
-			if op.Op != "Lock" || op.Defer {
+			if (op.Op != "Lock" && op.Op != "RLock") || op.Defer {
 				continue
 			}
 			for _, op2 := range li.Ops {
-				if op2.Op == "Unlock" && !op2.Defer && op2.Lock == op.Lock && core.MayFollow(op2.Instr, op.Instr) {
+				if (op2.Op == "Unlock" || op2.Op == "RUnlock") && !op2.Defer && op2.Lock == op.Lock && core.MayFollow(op2.Instr, op.Instr) {
 					relocks = append(relocks, op.Instr)
 					break
 				}
